@@ -350,6 +350,169 @@ fn gen_large(r: &mut Rng, o: &mut Out, nq: usize, maxlen: usize, hist: bool) {
     o.op(&format!("cover {} {}", t1, tag));
 }
 
+/// MANY-DATASETS family: 33..80 datasets; a handful of query hashes are SHARED, each by a large set of
+/// datasets (32 or more members), and the sets of one case are nearly identical: a base set and copies
+/// of it of the same size in which one or two members are exchanged for non-members, at every rank (most
+/// exchanges are with a neighbouring id, so that the two sets differ at exactly one rank of their sorted
+/// member lists; some are with a far id, which shifts every rank in between).  Every dataset also holds
+/// 0..4 query hashes of its own (a few hold 5..10 and come first), so a cover takes many rounds, and
+/// after each match that holds several shared hashes the remaining overlaps of ALL the datasets in the
+/// respective sets have to go down by exactly the number of shared hashes each of them holds.
+fn gen_many(r: &mut Rng, o: &mut Out, hist: bool) {
+    let scaled = *r.pick(&[1u64, 2]);
+    let track = r.chance(1, 2);
+    let nd = match r.below(4) {
+        0 => r.range(33, 36),
+        1 => r.range(60, 80),
+        _ => r.range(33, 80),
+    } as usize;
+    // base set: everything but 1..(nd - 32) holes
+    let maxholes = (nd - 32).min(match r.below(3) {
+        0 => 2,
+        1 => 8,
+        _ => 48,
+    });
+    let nholes = r.range(1, maxholes as u64) as usize;
+    let mut member = vec![true; nd];
+    let mut left = nholes;
+    while left > 0 {
+        let i = r.below(nd as u64) as usize;
+        if member[i] {
+            member[i] = false;
+            left -= 1;
+        }
+    }
+    // one exchange: a member leaves, a non-member enters
+    let exchange = |r: &mut Rng, m: &mut Vec<bool>| {
+        let holes: Vec<usize> = (0..m.len()).filter(|&i| !m[i]).collect();
+        let y = *r.pick(&holes);
+        let near: Vec<usize> = [y.wrapping_sub(1), y + 1].iter().copied().filter(|&x| x < m.len() && m[x]).collect();
+        let x = if !near.is_empty() && r.chance(3, 4) {
+            *r.pick(&near)
+        } else {
+            let mem: Vec<usize> = (0..m.len()).filter(|&i| m[i]).collect();
+            *r.pick(&mem)
+        };
+        m[x] = false;
+        m[y] = true;
+    };
+    let nshared = r.range(2, 6) as usize;
+    let mut sets: Vec<Vec<bool>> = vec![];
+    for i in 0..nshared {
+        let mut m = match (r.below(6), sets.is_empty()) {
+            (_, true) | (0, _) => member.clone(),
+            (1, false) => r.pick(&sets).clone(), // the same set as another shared hash, or a variant of a variant
+            _ => member.clone(),
+        };
+        if i > 0 || r.chance(1, 2) {
+            let k = if r.chance(1, 4) { 2 } else { 1 };
+            for _ in 0..k {
+                exchange(r, &mut m);
+            }
+        }
+        sets.push(m);
+    }
+    // hashes: shared ones first come from a pool spread over the value range, so that they are not
+    // neighbours in the sorted query
+    let mut next = r.range(0, 20);
+    let mut fresh = |r: &mut Rng| -> u64 {
+        next += r.range(1, 3);
+        next
+    };
+    let mut q: Vec<u64> = vec![];
+    let mut ds: Vec<Vec<u64>> = vec![vec![]; nd];
+    let mut shared_at: Vec<usize> = (0..nshared).map(|_| r.below(nd as u64 + 1) as usize).collect();
+    shared_at.sort();
+    let mut si = 0usize;
+    // datasets that come first: members of (nearly) all sets with many hashes of their own
+    let nfirst = r.range(1, 3) as usize;
+    let firsts: Vec<usize> = (0..nfirst).map(|_| r.below(nd as u64) as usize).collect();
+    for d in 0..=nd {
+        while si < nshared && shared_at[si] == d {
+            let h = fresh(r);
+            // now and then a shared hash is not in the query at all
+            if !r.chance(1, 12) {
+                q.push(h);
+            }
+            for (e, m) in sets[si].iter().enumerate() {
+                if *m {
+                    ds[e].push(h);
+                }
+            }
+            si += 1;
+        }
+        if d == nd {
+            break;
+        }
+        let own = if firsts.contains(&d) {
+            r.range(5, 10)
+        } else {
+            match r.below(8) {
+                0 => 0,
+                1 | 2 => 1,
+                _ => r.range(0, 4),
+            }
+        };
+        for _ in 0..own {
+            let h = fresh(r);
+            q.push(h);
+            ds[d].push(h);
+            // now and then shared with one other dataset (small sets next to the large ones)
+            if r.chance(1, 6) {
+                let e = r.below(nd as u64) as usize;
+                if e != d {
+                    ds[e].push(h);
+                }
+            }
+        }
+        // hashes foreign to the query
+        for _ in 0..r.below(3) {
+            let h = fresh(r);
+            ds[d].push(h);
+        }
+    }
+    // query hashes nobody holds
+    for _ in 0..r.below(4) {
+        let h = fresh(r);
+        q.push(h);
+    }
+    for d in ds.iter_mut() {
+        if d.is_empty() {
+            d.push(fresh(r));
+        }
+        d.sort();
+        d.dedup();
+    }
+    q.sort();
+    q.dedup();
+    let h = if hist { gen_history(r, ds.len()) } else { String::new() };
+    o.case(&format!("{} {}{}", scaled, track as u8, h));
+    for d in &ds {
+        o.op(&format!("d {}", show_nats(d.iter().copied())));
+    }
+    let ab: Vec<u64> = q
+        .iter()
+        .map(|_| match r.below(10) {
+            0 => r.bits(30).max(1),
+            1 | 2 => 1,
+            _ => r.range(1, 6),
+        })
+        .collect();
+    o.op(&format!(
+        "q {} {}",
+        show_nats(q.iter().copied()),
+        if track { show_nats(ab.iter().copied()) } else { "-".into() }
+    ));
+    let tag = format!("@{}", o.ncases - 1);
+    o.op(&format!("counter {}", tag));
+    o.op(&format!("colors {}", tag));
+    for t in 0..=3u64 {
+        for op in ["gather", "cover", "stats", "wstats"] {
+            o.op(&format!("{} {} {}", op, t, tag));
+        }
+    }
+}
+
 /// query sizes of the LARGE family: straddling 1024 / 4096 / 8192, and anything in 4100..9000
 fn large_size(r: &mut Rng, i: usize) -> usize {
     const EDGE: [usize; 9] = [4097, 8193, 1025, 4096, 8191, 1023, 4095, 1024, 8192];
@@ -404,6 +567,14 @@ fn gen(a: &Args) {
             li += 1;
         }
         gen_case(&mut r, &mut o, true);
+    }
+    // MANY-DATASETS family (after everything above): one-shot builds and a few incremental ones
+    let (nm, nmh) = if a.tier == "thorough" { (600u64, 60u64) } else { (40, 6) };
+    for _ in 0..nm {
+        gen_many(&mut r, &mut o, false);
+    }
+    for _ in 0..nmh {
+        gen_many(&mut r, &mut o, true);
     }
 }
 
